@@ -63,6 +63,7 @@ type world struct {
 	Spec    searchSpec `json:"spec"`
 	BadUTF8 bool       `json:"invalid_utf8_group"`
 	Dups    int        `json:"ids_in_two_fractions"`
+	Span    uint64     `json:"-"`
 }
 
 var fields = []string{"m", "g", "h", "v"}
@@ -110,6 +111,7 @@ func genWorld(seed uint64, idx int) *world {
 		nf = 0 // the replica holds no matching fraction: the request is done at once
 	}
 	span := uint64(r.Range(1, 3000))
+	w.Span = span
 	rid := uint64(r.Intn(1000))
 	var all []doc
 	for fi := 0; fi < nf; fi++ {
@@ -325,6 +327,33 @@ type proj struct {
 	rank  map[string]int // fraction name -> number (rank of the name = Glob order)
 	per   map[string]string
 	spec  searchSpec
+	extra map[string]int // fractions that appeared after the request was started
+}
+
+func (p *proj) num(name string) (int, bool) {
+	if k, ok := p.rank[name]; ok {
+		return k, true
+	}
+	k, ok := p.extra[name]
+	return k, ok
+}
+
+// live numbers the fractions alive at a resume; unknown names get numbers above the start-time ones
+func (p *proj) liveList(names []string) []int {
+	sorted := append([]string(nil), names...)
+	sort.Strings(sorted)
+	var out []int
+	for _, n := range sorted {
+		if _, ok := p.num(n); !ok {
+			if p.extra == nil {
+				p.extra = map[string]int{}
+			}
+			p.extra[n] = len(p.rank) + len(p.extra)
+		}
+		k, _ := p.num(n)
+		out = append(out, k)
+	}
+	return out
 }
 
 // fname: Coq term of the file name, or "" for a file the protocol does not know
@@ -340,12 +369,12 @@ func (p *proj) fname(base string) string {
 		return ""
 	}
 	if n, ok := strings.CutSuffix(rest, ".qpr"); ok {
-		if k, ok := p.rank[n]; ok {
+		if k, ok := p.num(n); ok {
 			return fmt.Sprintf("(FQpr %d)", k)
 		}
 	}
 	if n, ok := strings.CutSuffix(rest, ".qpr.tmp"); ok {
-		if k, ok := p.rank[n]; ok {
+		if k, ok := p.num(n); ok {
 			return fmt.Sprintf("(FQprTmp %d)", k)
 		}
 	}
@@ -563,6 +592,41 @@ type crashPoint struct {
 	K       int `json:"k"`
 	Variant int `json:"variant"` // 0 after k operations; 1 the k-th operation (a write) cut short; 2 power loss after k
 	Cut     int `json:"cut,omitempty"`
+	// the fraction list moves between the crash and the resume: after the restart, before the
+	// asynchronous searcher is started, new matching documents in the query's range are ingested
+	// (1 = into a new active fraction, 2 = and that fraction is sealed too)
+	Ingest     int    `json:"ingest,omitempty"`
+	IngestSeed uint64 `json:"ingest_seed,omitempty"`
+}
+
+type ingest struct {
+	docs      []hexDoc
+	sealFirst bool // the last start-time fraction is still active: rotate first, so that it does not change
+	sealAfter bool
+}
+
+func (w *world) newDocs(cp crashPoint) *ingest {
+	if cp.Ingest == 0 {
+		return nil
+	}
+	r := rng.New(cp.IngestSeed)
+	lo, hi := uint64(midBase), uint64(midBase)+w.Span
+	if w.Spec.From > lo {
+		lo = w.Spec.From
+	}
+	if w.Spec.To < hi {
+		hi = w.Spec.To
+	}
+	ing := &ingest{sealAfter: cp.Ingest == 2, sealFirst: len(w.Sealed) > 0 && !w.Sealed[len(w.Sealed)-1]}
+	n := r.Range(1, 4)
+	for i := 0; i < n; i++ {
+		d := hexDoc{MID: lo + uint64(r.Intn(int(hi-lo)+1)), RID: 900000 + cp.IngestSeed%1000*10 + uint64(i)}
+		for _, t := range []string{"m:1", "g:" + rng.Pick(r, groupVals[:6]), "h:" + rng.Pick(r, groupVals[:5]), "v:" + exactValue(r, int64(r.Intn(200))-100)} {
+			d.Tokens = append(d.Tokens, hex.EncodeToString([]byte(t)))
+		}
+		ing.docs = append(ing.docs, d)
+	}
+	return ing
 }
 
 // crashState builds the directory state for a crash of the run tr (projected ops) at cp
@@ -598,11 +662,12 @@ type runObs struct {
 	sync  childResp
 	per   childResp
 	final map[string][]byte
+	live  []string
 }
 
 // runChild starts a traced child on root (data in root/data, requests in root/async), lets
 // MustStartAsync resume whatever is there, optionally starts the search, waits for Done and fetches.
-func runChild(root string, spec searchSpec, fresh bool) (*runObs, error) {
+func runChild(root string, spec searchSpec, fresh bool, ing *ingest) (*runObs, error) {
 	st, err := storectl.Start(root)
 	if err != nil {
 		return nil, fmt.Errorf("harness: %w", err)
@@ -618,10 +683,28 @@ func runChild(root string, spec searchSpec, fresh bool) (*runObs, error) {
 	if _, err := st.Call(storectl.Req{Op: "open", Dir: root + "/data"}); err != nil {
 		return nil, fmt.Errorf("open: %w", err)
 	}
+	o := &runObs{}
+	if ing != nil {
+		if ing.sealFirst {
+			if _, err := st.Call(storectl.Req{Op: "seal"}); err != nil {
+				return nil, fmt.Errorf("harness: seal: %w", err)
+			}
+		}
+		if _, err := call(st, "c19.bulk", childReq{Docs: ing.docs}); err != nil {
+			return nil, fmt.Errorf("harness: ingest: %w", err)
+		}
+		if ing.sealAfter {
+			if _, err := st.Call(storectl.Req{Op: "seal"}); err != nil {
+				return nil, fmt.Errorf("harness: seal: %w", err)
+			}
+		}
+	}
+	if fr, err := call(st, "c19.fracs", childReq{}); err == nil {
+		o.live = fr.Names
+	}
 	if _, err := call(st, "c19.start", childReq{AsyncDir: root + "/async", Parallelism: 1, Spec: spec}); err != nil {
 		return nil, fmt.Errorf("start: %w", err)
 	}
-	o := &runObs{}
 	if fresh {
 		if _, err := call(st, "c19.search", childReq{Spec: spec}); err != nil {
 			return nil, fmt.Errorf("search: %w", err)
@@ -759,7 +842,7 @@ func runWorld(seed uint64, idx int, tier string, only [][]crashPoint) (res *resu
 	var run0 *runObs
 	for attempt := 0; attempt < 3; attempt++ {
 		os.RemoveAll(root + "/async")
-		run0, err = runChild(root, w.Spec, true)
+		run0, err = runChild(root, w.Spec, true, nil)
 		if err != nil {
 			break
 		}
@@ -904,6 +987,11 @@ func runWorld(seed uint64, idx int, tier string, only [][]crashPoint) (res *resu
 		}
 		for _, cp := range points {
 			chains = append(chains, []crashPoint{cp})
+			// the same crash, but the fraction list moves before the resume
+			if r.Chance(1, 3) {
+				cp.Ingest, cp.IngestSeed = r.Range(1, 2), r.U64()%1000000
+				chains = append(chains, []crashPoint{cp})
+			}
 		}
 	}
 	nsecond := 2
@@ -917,6 +1005,7 @@ func runWorld(seed uint64, idx int, tier string, only [][]crashPoint) (res *resu
 		var dir string
 		var st *crashfs.State
 		var obs *runObs
+		var live []int
 		okChain := true
 		for li, cp := range chain {
 			if cp.K > len(ops) || (cp.Variant == 1 && (cp.K >= len(ops) || !ops[cp.K].write)) {
@@ -932,10 +1021,11 @@ func runWorld(seed uint64, idx int, tier string, only [][]crashPoint) (res *resu
 					panic(err)
 				}
 				os.MkdirAll(dir+"/data", 0o755)
-				obs, err = runChild(dir, w.Spec, false)
+				obs, err = runChild(dir, w.Spec, false, w.newDocs(cp))
 				if err != nil {
 					break
 				}
+				live = p.liveList(obs.live)
 				nops, _, bad = p.ops(obs.tr)
 				if shapeOK(nops) && len(bad) == 0 {
 					break
@@ -991,13 +1081,19 @@ func runWorld(seed uint64, idx int, tier string, only [][]crashPoint) (res *resu
 			cl = twiceClass
 		}
 		res.cases = append(res.cases, ccase{
-			term: fmt.Sprintf("CCrash %s [%s] %s %s %s %s %s %s %s %s", wterm, strings.Join(cc, "; "), casefile.Bool(ack), obsCoq,
+			term: fmt.Sprintf("CCrash %s [%s] %s %s %s %s %s %s %s %s %s", wterm, strings.Join(cc, "; "), casefile.Bool(ack), casefile.NList(live), obsCoq,
 				opsCoq(ops), finCoq, casefile.Bool(obs.fetch.Found), casefile.Bool(obs.fetch.Done), casefile.Bool(obs.fetch.ReqOK),
 				bt.qprCoq(resOf(obs.fetch))),
 			class: cl, nontrivial: nontriv && strings.Contains(obsCoq, "CInfo false"), input: in,
-			impl: map[string]any{"crash_dir": obsNames, "crash_dir_classified": obsCoq, "resume_ops": opsText(ops), "final_dir": finNames,
+			impl: map[string]any{"live_fractions_at_resume": obs.live, "crash_dir": obsNames, "crash_dir_classified": obsCoq, "resume_ops": opsText(ops), "final_dir": finNames,
 				"found": obs.fetch.Found, "done": obs.fetch.Done, "async": obs.fetch.QPR, "sync": run0.sync.QPR}})
 		res.counts = append(res.counts, fmt.Sprintf("crash-variant:%d", chain[len(chain)-1].Variant))
+		for _, cp := range chain {
+			if cp.Ingest > 0 {
+				res.counts = append(res.counts, "resume:fraction-list-moved")
+				break
+			}
+		}
 		if strings.Contains(obsCoq, "CQpr") && strings.Contains(obsCoq, "CInfo false") {
 			res.counts = append(res.counts, "crash:partial-results-persisted")
 		}
